@@ -220,6 +220,9 @@ def wrappers():
         ('wrap-limit', lambda inner, names, types: select([(col(n), None) for n in reversed(names)], from_=inner, limit=2)),
         # `*` at two nesting levels over sub-queries of DIFFERENT shape (reversed column order / first column only)
         ('wrap-star-reversed', lambda inner, names, types: select([(col(n), None) for n in reversed(names)], from_=select(A.Asterisk(), from_=inner))),
+        # a DISTINCT wrapper that merely forwards the inner columns (its de-duplication must survive)
+        ('wrap-distinct-star', lambda inner, names, types: select(A.Asterisk(), from_=select(A.Asterisk(), from_=inner), distinct=True)),
+        ('wrap-distinct-cols', lambda inner, names, types: select([(col(n), None) for n in names], from_=select([(col(n), None) for n in names], from_=inner), distinct=True)),
         ('wrap-star-first', lambda inner, names, types: select([(col(names[0]), None)], from_=select(A.Asterisk(), from_=inner))),
     ]
 
@@ -286,6 +289,10 @@ def in_statements():
         'empty-by-where': select([(j, None)], from_='u', where=A.Equal(C(1), C(2))),
         'all-null-rows': select([(j, None)], from_='u', where=A.IsNull(j)),          # rows, but only NULL values: not "no row"
         'all-null-expr': select([(A.Add(j, C(None)) if False else F('int', s), 'n')], from_='u'),   # int('a') is NULL for every row
+        # LIMIT cuts the sub-query's own rows (duplicates included): the membership list is exactly its output column
+        'limit-over-duplicates': select([(v, None)], from_='t', order_by=[A.OrderBy(v, ASC), A.OrderBy(id_, ASC)], limit=3),
+        'limit-desc': select([(v, None)], from_='t', order_by=[A.OrderBy(k, DESC), A.OrderBy(id_, ASC)], limit=2),
+        'limit-no-order': select([(v, None)], from_='t', limit=2),
         'null-and-values': select([(j, None)], from_='u', where=A.Or([A.IsNull(j), A.Greater(j, C(0))])),
         'agg': select([(F('max', j), 'm')], from_='u'),
         'from-subquery': select([(col('jj'), None)], from_=select([(j, 'jj')], from_='u', where=A.IsNotNull(j))),
@@ -382,7 +389,7 @@ def shard_fn(shard, nshards, seed, tier):
     idx = 0
     for variant in vs:
         for i, job in enumerate(js):
-            if tier == 'quick' and job[0] == 3 and job[2] not in (0, 2, 4):
+            if tier == 'quick' and job[0] == 3 and job[2] not in (0, 2, 4, 5):
                 continue
             idx += 1
             if mine(idx, shard, nshards):
@@ -427,7 +434,7 @@ def run(ctx):
                 'or one IN/NOT IN statement compared with the reference; distinct_nontrivial = distinct result row lists',
         'exhaustive': True,
         'bound': f'{len(inner_menu())} inner queries x generated outer menu (10-25 per inner), depth 2 complete; depth 3 with '
-                 f'{"3 of 6" if ctx.quick else "all 6"} wrappers; {len(in_statements())} IN statements; {len(TEXTS)} text statements',
+                 f'{"4 of 8" if ctx.quick else "all 8"} wrappers; {len(in_statements())} IN statements; {len(TEXTS)} text statements',
         'data_variants_of_t (fixed table + all row sequences of length <= L over 9 letters)': sorted(acc.sets['variants']),
         'depth2': n['depth2'], 'depth3': n['depth3'], 'in_statements': n['in_statements'], 'text_statements': n['text_statements'],
         'reference_compared': n['ref_compared'], 'reference_unsupported': n['ref_unsupported'], 'both_rejected': n['both_rejected'],
